@@ -58,10 +58,22 @@ class Ctx:
         eng.contract = lambda callee, caller: caller.startswith('parser_listener::ParserListener::') and callee.startswith(runner.LP)
         eps = runner.listener_entry_points(self.prog) + [f for f in runner.SCREEN_FNS if f in self.prog.bodies]
         results = {}
+        events = []
+
+        def event_hook(c, ev):
+            # snapshot of the state at every collection operation (rules query it lazily)
+            if c.fr is None:
+                return
+            events.append(dict(ev=ev, st=c.st.fork(), func=c.fr.func, bb=c.bi, stack=c.st.stack, entry=eng.entry_name,
+                               span=c.t['span'], ep=cur[0]))
+        cur = [None]
+        eng.event_hook = event_hook
         t0 = time.time()
         for ep in eps:
+            cur[0] = ep
             results[ep] = runner.run_entry(eng, ep)
-        self._screen_run = dict(engine=eng, results=results, wall=time.time() - t0, entry_points=eps)
+        eng.event_hook = None
+        self._screen_run = dict(engine=eng, results=results, wall=time.time() - t0, entry_points=eps, events=events)
         return self._screen_run
 
     def yield_sites(self, prog=None):
